@@ -2,6 +2,8 @@ package main
 
 import (
 	"os"
+	"regexp"
+	"strings"
 	"sync"
 
 	badger "github.com/dgraph-io/badger/v2"
@@ -40,4 +42,32 @@ func diskDB() (*badger.DB, string, func()) {
 		panic(err)
 	}
 	return db, dir, func() { db.Close(); os.RemoveAll(dir) }
+}
+
+// serverStoreTruncates: does the server open its store so that a record torn by a crash at the end of
+// the value log is cut off (badger's Truncate option)? Read off /repo's server.go, so that the stores
+// the engines open after a simulated or real crash recover exactly as the server's own store would.
+var (
+	storeTruncOnce sync.Once
+	storeTrunc     bool
+)
+
+func serverStoreTruncates() bool {
+	storeTruncOnce.Do(func() {
+		repo := os.Getenv("VERIF_REPO")
+		if repo == "" {
+			repo = "/repo"
+		}
+		b, err := os.ReadFile(repo + "/server.go")
+		if err != nil {
+			return
+		}
+		for _, l := range strings.Split(string(b), "\n") {
+			l = regexp.MustCompile(`\s+`).ReplaceAllString(l, "")
+			if strings.Contains(l, "badger.Open(") && strings.Contains(l, "WithTruncate(true)") {
+				storeTrunc = true
+			}
+		}
+	})
+	return storeTrunc
 }
